@@ -46,6 +46,10 @@ def check_chain(case, ev):
     pwd, ip, words, asn = case["features"]
     words = words and bool(case["words"])
     asn = asn and bool(case["asns"])
+    if case.get("pad"):
+        # the first line made longer than 64 KiB by one long token in front of it (kept out of the case
+        # itself so that replay files stay small); a multiple of 65536 falls inside its original text
+        case = dict(case, lines=["description " + "x" * case["pad"] + " " + case["lines"][0]] + list(case["lines"][1:]))
     text = "".join(l + "\n" for l in case["lines"])
     multi, exc = guarded(lambda: core.run_io(FileAnonymizer(**_kw(case, pwd, ip, words, asn)), text))
     if exc is not None:
@@ -179,6 +183,31 @@ def t_chain(shard, nshards, seed, ev, known, n=200):
     return core.hyp_drive(_case(), check_chain, n, seed, ev, known, check_name="chain")
 
 
+def t_longline(shard, nshards, seed, ev, known, n=6):
+    """The chain oracle on texts whose first line is longer than 64 KiB (secrets stage off: its patterns
+    are quadratic in the line length)."""
+    out = []
+    cases = core.collect_cases(_case(), 40 * n, seed)[3:]
+    k = 0
+    for c in cases:
+        l0 = c["lines"][0]
+        if len(l0) < 8 or not any(ch.isdigit() for ch in l0) or "\r" in "".join(c["lines"]):
+            continue
+        c["features"] = [False, True, bool(c["features"][2] or k % 2), True]
+        c["split_ip"] = k % 2 == 0
+        c["cli"] = k % 3 == 0
+        off = 1 + core.derive("c15pad", seed, k) % (len(l0) - 1)
+        c["pad"] = 65536 * (1 + k % 2) - len("description ") - 1 - off
+        out.append(c)
+        k += 1
+        if k >= n:
+            break
+    return core.enum_drive(out, check_chain, ev, known, "longline")
+
+
+REPLAY["longline"] = check_chain
+
+
 def plan(tier):
     q = tier == "quick"
-    return [Task("chain", t_chain, shards=8 if q else 16, n=600 if q else 12000)]
+    return [Task("chain", t_chain, shards=8 if q else 16, n=600 if q else 12000), Task("longline", t_longline, shards=2 if q else 8, n=5 if q else 30)]
